@@ -1224,8 +1224,19 @@ class SX:
 
     def call(self, f, args, kwargs, st, node):
         if isinstance(f, Func):
-            rs = f.fn(self, args, kwargs, st, node)
-            return rs
+            has_unknown = any(isinstance(a, Conc) and isinstance(a.v, Unknown) for a in list(args) + list(kwargs.values()))
+            if not has_unknown:
+                return f.fn(self, args, kwargs, st, node)
+            # a modelled function applied to a value without contract: if the model cannot cope, its result is unknown too
+            probe = st.fork()
+            try:
+                return f.fn(self, args, kwargs, st, node)
+            except Unsupported:
+                raise
+            except Exception:  # noqa  (z3 sort errors, attribute errors inside model code)
+                st.pc, st.heap, st.ghost = probe.pc, probe.heap, probe.ghost
+                self.uncontracted.append("%s applied to a value without contract (line %s)" % (f.label, getattr(node, "lineno", "?")))
+                return [R(st, Conc(Unknown("%s(unknown)" % f.label))), R(st.fork(), None, Exc("Exception", exact=False))]
         if isinstance(f, Conc) and callable(getattr(f.v, "__pyvc_call__", None)):
             return f.v.__pyvc_call__(self, args, kwargs, st, node)
         if isinstance(f, Val) and isinstance(f.ty, V.Opt):
